@@ -155,11 +155,13 @@ def main():
     bounded = []
     search_cache = {}
     if not a.no_rt:
-        for cid in sorted(set(cids) | set(trusted)):
+        todo = [cid for cid in sorted(set(cids) | set(trusted)) if C.CONTRACTS[cid].bounded]
+        from concurrent.futures import ThreadPoolExecutor
+        with ThreadPoolExecutor(max_workers=6) as ex:       # independent sub-processes (one per contract)
+            found = dict(zip(todo, ex.map(lambda c: conc({"op": "search", "cid": c, "tier": tier}), todo)))
+        for cid in todo:
             ct = C.CONTRACTS[cid]
-            if not ct.bounded:
-                continue
-            res = conc({"op": "search", "cid": cid, "tier": tier})
+            res = found[cid]
             search_cache[cid] = res
             if "error" in res:
                 faults.append(f"{cid}: concrete harness: {res['error'][-300:]}")
